@@ -27,7 +27,7 @@ func init() {
 		Assumptions: []string{
 			"reference ref.ArcToCenter: SVG 1.1 F.6.5/F.6.6 in float64, own implementation",
 			"on-ellipse tolerance 1e-3 (a cubic spanning 90 degrees deviates 2.8e-4) plus a float32 conditioning term that grows as 1/chord when the chord is short compared with the radii (the centre is then ill-determined by the end points); sweep extent tolerance 2e-2 rad plus that term; endpoint 1e-5 relative",
-			"arcs with |radii check - 1| < 1e-4 (half turn fitting exactly) are excluded from the on-ellipse/extent checks only: centre and flags are ill-conditioned there",
+			"arcs with |radii check - 1| < max(1e-4, 50 x the float32 rounding of pen and end point relative to the radii) (half turn fitting exactly) are excluded from the on-ellipse/extent checks only: centre and flags are ill-conditioned there (an input error eps moves the curve by sqrt(eps) of the radius)",
 			"shallow arcs (chord below 5e-3 in unit-circle coordinates, small arc) are also judged in pixels: a point at unit-circle radius r is at least |r-1|*min(radii)*min(scales) px off the ellipse; tolerance 0.02 px + 2e-6 of the pixel magnitudes involved (the unchanged tree stays below 4e-4 px on 8192-px targets for radii up to 1e8)",
 		},
 		Subs: []*run.Sub{
@@ -450,7 +450,16 @@ func c06Arc(c *run.Ctx, idx uint64) {
 	} else {
 		c.Count("sweep_negative", 1)
 	}
-	if math.Abs(a.Lambda-1) < 1e-4 {
+	// Near a half turn that fits exactly (radii check = 1) the centre moves like
+	// the square root of the distance to 1, and on which side of 1 an arc falls
+	// decides whether its radii are scaled: an input error eps moves the curve
+	// by up to sqrt(eps) of the radius there. eps is the float32 rounding of the
+	// pen and the end point relative to the radii, so for ellipses far below a
+	// pixel the excluded band is wider than for ordinary ones.
+	minR0 := math.Min(a.RX, a.RY)
+	condBase := 1e-6 * (math.Abs(a.CX) + math.Abs(a.CY) + math.Abs(X1) + math.Abs(Y1) + math.Abs(X2) + math.Abs(Y2) +
+		(math.Abs(float64(penX))+math.Abs(epx))/sx + (math.Abs(float64(penY))+math.Abs(epy))/sy) / minR0
+	if math.Abs(a.Lambda-1) < math.Max(1e-4, 50*condBase) {
 		c.Count("ill_conditioned_skipped", 1)
 		return
 	}
